@@ -449,7 +449,7 @@ def sol_case(rng, malformed=False):
     return c
 
 
-SOL_VALTYPES = ("bool", "npint64", "npint8", "npbool", "npfloat32", "Fraction", "Decimal", "sympy", "mixed")
+SOL_VALTYPES = ("bool", "npint64", "npint8", "npuint8", "npuint32", "npbool", "npfloat32", "Fraction", "Decimal", "sympy", "mixed")
 
 def sol_entry(v, ty, pos=0):
     """the integer v as a number of type ty (bool types only spell 0 / 1; anything else stays as it is)"""
@@ -472,6 +472,9 @@ def sol_entry(v, ty, pos=0):
     import numpy as np
     if ty == "npbool":
         return np.bool_(v) if v >= 0 else np.int64(v)
+    if ty in ("npuint8", "npuint32"):
+        # unsigned fixed-width entries (np.unpackbits, uint8 sample arrays): only 0 / 1 can be spelled; -1 stays a signed int
+        return {"npuint8": np.uint8, "npuint32": np.uint32}[ty](v) if v >= 0 else np.int64(v)
     return {"npint64": np.int64, "npint8": np.int8, "npfloat32": np.float32}[ty](v)
 
 
